@@ -692,6 +692,19 @@ func operandView(d map[string]map[string]any) map[string]map[string]any {
 	return out
 }
 
+// withoutCRDs: CRDs are installed by others (environment); the operator only strips the conversion webhook from the queue
+// CRD once, which a later configuration cannot "undo": they take part in the fixpoint check, not in the comparison
+// with a fresh deployment.
+func withoutCRDs(d map[string]map[string]any) map[string]map[string]any {
+	out := map[string]map[string]any{}
+	for k, v := range d {
+		if !strings.HasPrefix(k, "CustomResourceDefinition/") {
+			out[k] = v
+		}
+	}
+	return out
+}
+
 func nested(v any, path ...string) any {
 	for _, p := range path {
 		m, ok := v.(map[string]any)
@@ -1015,7 +1028,7 @@ func c20OpBody(sc *C20OpScript, res *Result) {
 		if ferr == nil {
 			fail("operator_no_fixpoint", "a fresh deployment of the final configuration does not reach a fixpoint in 6 rounds")
 		}
-	} else if d := dumpDiff(final, operandView(fw.dump())); len(d) > 0 {
+	} else if d := dumpDiff(withoutCRDs(final), withoutCRDs(operandView(fw.dump()))); len(d) > 0 {
 		fail("operator_history_dependent", "the operand objects differ from a fresh deployment of the same configuration (first = this history, second = fresh): %v", d)
 	}
 	res.Probes["c20op_fresh_compared"]++
